@@ -56,7 +56,7 @@ inline int run(int argc, char** argv) {
     while (std::getline(in, line)) {
         if (line.empty() || line[0] == '#') continue;
         std::stringstream ss(line); std::string op; ss >> op;
-        if (op == "reset") { insts().clear(); out << "{\"k\":\"reset\"}\n"; continue; }
+        if (op == "reset") { insts().clear(); out << "{\"k\":\"reset\",\"live\":" << RT::live() << ",\"bad\":" << RT::badlife() << "}\n"; continue; }
         int i = 0; ss >> i;
         std::string e = "", gv = "-", pl = "-"; int p = 0, j = -1;
         if (op == "pe") ss >> e >> p >> gv >> pl;
